@@ -279,10 +279,13 @@ import "encoding/binary"
 //@   at call (*Session).handleStreamMessage#0 hint[C07] a1 == stream && a2.offset == ele.offsetInShmBuf && a3 == state && state == ele.status % 256
 //@   at call (*Session).getStream#0 hint[C07] a1 == ele.seqID && a2 == state
 //@   at call (*bufferManager).readBufferSlice#0 hint[C09] a1 == ele.offsetInShmBuf && stream == nil && state == 0
-//@   at call (*bufferManager).recycleBuffers#0 hint[C09] a1 == slice
+//@   at call? (*bufferManager).recycleBuffers#0 hint[C09] a1 == slice
+//@   ghost var owed bool = false     // a chain was read for an unknown stream and must be given back as a whole
+//@   at call (*bufferManager).readBufferSlice#0 ghost owed := r1 == nil
+//@   at call? (*bufferManager).recycleBuffers#0 ghost owed := false
 //@   exit[C05] r2 == nil ==> lastIdle        // the consumer leaves only through a re-check that found the queue empty (or with an error that ends the session)
-//@   loop 0 invariant sessOK(s)
-//@   loop 1 invariant sessOK(s)
+//@   loop 0 invariant sessOK(s) && !owed
+//@   loop 1 invariant sessOK(s) && !owed
 
 //@ func (*Session).handleEvents
 //@   unreachable-returns 1   // 'msgType >= len(protocolHandlers)' is dead code after checkEventValid (types 0..9, table length 10)
